@@ -367,7 +367,7 @@ func (g *gen) commonTree(c commonL) obj {
 }
 
 // every object of the tree, with a label of its nesting level
-func walkObjs(o obj, label string, f func(label string, at *obj)) {
+func walkObjs(o *obj, label string, f func(label string, at *obj)) {
 	var rec func(p *obj, label string)
 	rec = func(p *obj, label string) {
 		f(label, p)
@@ -387,7 +387,7 @@ func walkObjs(o obj, label string, f func(label string, at *obj)) {
 			}
 		}
 	}
-	rec(&o, label)
+	rec(o, label)
 }
 
 func deepCopy(o obj) obj {
@@ -546,12 +546,13 @@ func (d *drv) runFormats(g *gen, n int) map[string]any {
 
 		// an unknown key at one nesting level
 		var spots []string
-		walkObjs(deepCopy(tree), "top", func(label string, at *obj) { spots = append(spots, label) })
+		probe := deepCopy(tree)
+		walkObjs(&probe, "top", func(label string, at *obj) { spots = append(spots, label) })
 		target := g.intn(len(spots))
 		bad := deepCopy(tree)
 		idx := 0
 		label := ""
-		walkObjs(bad, "top", func(l string, at *obj) {
+		walkObjs(&bad, "top", func(l string, at *obj) {
 			if idx == target {
 				label = l
 				pos := g.intn(len(*at) + 1)
